@@ -41,7 +41,7 @@ static int (*real_open)(const char *, int, ...);
 static pthread_mutex_t mu = PTHREAD_MUTEX_INITIALIZER;
 static int inited, logfd = -1;
 static long seed = -1;
-static unsigned long long rng;
+static unsigned long long rng[2];      /* separate streams for reads and writes: each is deterministic */
 static int fail_op = -1, fail_errno, sig_op = -1, sig_no, sig_after;
 static long fail_k = -1, sig_k = -1;
 static long count[O_MAX];
@@ -67,7 +67,11 @@ static void init(void)
   real_unlink = dlsym(RTLD_NEXT, "unlink");
   real_open = dlsym(RTLD_NEXT, "open");
   p = getenv("VERIF_IO_SEED");
-  if (p && *p) { seed = atol(p); rng = 0x9E3779B97F4A7C15ull * (unsigned long long)(seed + 1) + 1; }
+  if (p && *p) {
+    seed = atol(p);
+    rng[0] = 0x9E3779B97F4A7C15ull * (unsigned long long)(seed + 1) + 1;
+    rng[1] = 0xD1B54A32D192ED03ull * (unsigned long long)(seed + 1) + 7;
+  }
   p = getenv("VERIF_IO_LOG");
   if (p && *p) logfd = real_open(p, O_WRONLY | O_CREAT | O_APPEND | O_CLOEXEC, 0666);
   p = getenv("VERIF_IO_FAIL");
@@ -105,16 +109,19 @@ static int enter(int op, int fd, const char *path)
   return r;
 }
 
-static size_t part(size_t n)
+static size_t part(size_t n, int w)
 {
   size_t m;
+  unsigned long long x;
   pthread_mutex_lock(&mu);
-  rng ^= rng << 13; rng ^= rng >> 7; rng ^= rng << 17;
+  x = rng[w];
+  x ^= x << 13; x ^= x >> 7; x ^= x << 17;
+  rng[w] = x;
   if (n <= 1) m = n;
-  else switch ((rng >> 20) % 4) {
+  else switch ((x >> 20) % 4) {
     case 0: m = 1; break;
-    case 1: m = 1 + (size_t)((rng >> 24) % n); break;
-    case 2: m = n > 7 ? 1 + (size_t)((rng >> 24) % 7) : n; break;
+    case 1: m = 1 + (size_t)((x >> 24) % n); break;
+    case 2: m = n > 7 ? 1 + (size_t)((x >> 24) % 7) : n; break;
     default: m = n;
   }
   pthread_mutex_unlock(&mu);
@@ -129,7 +136,7 @@ ssize_t read(int fd, void *buf, size_t n)
   if (fd == 2 || fd == logfd) return real_read(fd, buf, n);
   r = enter(O_READ, fd, NULL);
   if (r & 1) { errno = fail_errno; return -1; }
-  rv = real_read(fd, buf, (fd == 0 && seed >= 0) ? part(n) : n);
+  rv = real_read(fd, buf, (fd == 0 && seed >= 0) ? part(n, 0) : n);
   if (r & 4) kill(getpid(), sig_no);
   return rv;
 }
@@ -155,7 +162,7 @@ ssize_t write(int fd, const void *buf, size_t n)
     errno = fail_errno;
     return -1;
   }
-  rv = real_write(fd, buf, (fd == 1 && seed >= 0) ? part(n) : n);
+  rv = real_write(fd, buf, (fd == 1 && seed >= 0) ? part(n, 1) : n);
   if (r & 4) kill(getpid(), sig_no);
   return rv;
 }
